@@ -106,6 +106,20 @@ def doCommit (ds : DS) (root : Hash) (failAt : Option Nat) (observed : List Hash
      (if out.ok then "ok " else "err ") ++ showBatches out.written)
   | _, _ => (ds, "diverges")
 
+/-- `commit?` / `fail?`: used by the harness while the memory cache holds nodes
+    left over from a failed commit of an earlier block.  Whether the leaf
+    callback ran again for such a node is not observable through the exported
+    API, so the model's external references may lag behind.  If the model's
+    batches equal the observed ones they are printed as usual; otherwise the
+    observed writes are applied to the model state and the op is `unmodelled`. -/
+def doCommitLoose (ds : DS) (root : Hash) (failAt : Option Nat) (obs : List (List Hash)) (refused : List Hash) : DS × String :=
+  let (ds1, ans) := doCommit ds root failAt (obs.flatten ++ refused) failAt.isSome
+  let want := (if failAt.isSome then "err " else "ok ") ++ showBatches obs
+  if ans == want then (ds1, ans) else
+  let disk' := applyBatches ds.st.cache ds.st.disk obs
+  let cache' := if failAt.isSome then ds.st.cache else uncache ds.st.cache obs.flatten
+  ({ st := ⟨cache', disk'⟩, prevDisk := ds.st.disk, lastCache := ds.st.cache, lastBatches := obs }, "unmodelled")
+
 def lineStep (ds : DS) (line : String) : DS × String :=
   match splitWords line with
   | ["reset"] => (DS.init, "ok")
@@ -132,6 +146,14 @@ def lineStep (ds : DS) (line : String) : DS × String :=
   | ["fail", root, k, obs, refused] =>
     match hashOf? root, k.toNat?, batches? obs, hashList? refused with
     | some r, some k, some bs, some rf => doCommit ds r (some k) (bs.flatten ++ rf) true
+    | _, _, _, _ => (ds, "bad-op")
+  | ["commit?", root, obs] =>
+    match hashOf? root, batches? obs with
+    | some r, some bs => doCommitLoose ds r none bs []
+    | _, _ => (ds, "bad-op")
+  | ["fail?", root, k, obs, refused] =>
+    match hashOf? root, k.toNat?, batches? obs, hashList? refused with
+    | some r, some k, some bs, some rf => doCommitLoose ds r (some k) bs rf
     | _, _, _, _ => (ds, "bad-op")
   | ["prefix", j, roots] =>
     match j.toNat?, hashList? roots with
